@@ -3,13 +3,16 @@
 import json, os, sys
 HERE = os.path.dirname(os.path.dirname(os.path.abspath(__file__)))
 sys.path.insert(0, HERE)
-from tools.manifest_table import CLAIMED, NOT_APPLICABLE  # noqa: E402
+from tools.manifest_table import ADDED, CLAIMED, NOT_APPLICABLE  # noqa: E402
 
 BASELINE = "cd /repo && /venv/bin/python -m pytest -ra -q -p no:cacheprovider --timeout=900 --continue-on-collection-errors"
 
 checks = []
 for pid in sorted(CLAIMED):
-    c = CLAIMED[pid]
+    c = dict(CLAIMED[pid])
+    if pid in ADDED:
+        c["text"] = c["text"] + " " + ADDED[pid][0]
+        c["technique"] = c["technique"] + "; " + ADDED[pid][1]
     checks.append({
         "property_id": pid,
         "quick_cmd": f"/venv/bin/python check.py {pid} --tier quick",
